@@ -168,7 +168,8 @@ Inductive op :=
 | Get (h : string)
 | Head (h : string)                      (* same handler as GET *)
 | Put (h : string) (d : content)
-| PutShort (h : string) (d : content) (n : N).
+| PutShort (h : string) (d : content) (n : N)
+| PutCancel (h : string) (d : content).
                                          (* PUT with Content-Length n whose body ends, or fails, after the
                                             bytes d (clen d < n): a client that goes away in mid-upload *)
 
@@ -188,6 +189,10 @@ Definition handle_put (s : state) (h : string) (d : content) : resp * state :=
        | _ => let '(c, s') := put_block s h d in ({| code := c; body := None; clength := None |}, s')
        end.
 
+(* (PutCancel h d: the whole body d arrived, the client went away while PutBlock was at work and the
+   request was answered with an error: 503 ErrClientDisconnect, or 500 -- same status class as below;
+   whatever the abandoned write had done is undone, the volumes are as before.  A request whose
+   client went away too late to matter is an ordinary Put.) *)
 (* handlePUT when io.ReadFull(req.Body, buf) returns an error (io.EOF, io.ErrUnexpectedEOF or the
    reader's own error): the same checks come first, then 500; PutBlock is never called *)
 Definition handle_put_short (s : state) (n : N) : resp :=
@@ -202,6 +207,7 @@ Definition handle (s : state) (o : op) : resp * state :=
   | Get h | Head h => (handle_get s h, s)
   | Put h d => handle_put s h d
   | PutShort h d n => (handle_put_short s n, s)
+  | PutCancel h d => (handle_put_short s (clen d), s)
   end.
 
 (* run a request sequence; the trace pairs every response with the state after the request *)
